@@ -179,10 +179,12 @@ static int pctx_to_pem(EVP_PKEY_CTX *pctx, OSSL_PARAM *params,
 		ret = PEM_write_bio_PUBKEY(bio, pkey);
 
 	if (!ret) {
-		// LCOV_EXCL_START
-		ret = 0;
+		/* OpenSSL takes components it cannot serialize (e.g. an EC
+		 * private value outside the group order); such a key cannot
+		 * be used for anything either. */
+		jwt_write_error(item, "Unable to create PEM from pkey");
+		ret = -1;
 		goto cleanup_pem;
-		// LCOV_EXCL_STOP
 	}
 
 	len = BIO_get_mem_data(bio, &src);
